@@ -162,11 +162,8 @@ template <typename _Derived>
 typename SO2Base<_Derived>::Rotation
 SO2Base<_Derived>::rotation() const
 {
-  using std::sin;
-  using std::cos;
-  const Scalar theta = angle();
-  return (Rotation() << cos(theta), -sin(theta),
-                        sin(theta),  cos(theta)).finished();
+  return (Rotation() << real(), -imag(),
+                        imag(),  real() ).finished();
 }
 
 template <typename _Derived>
